@@ -33,6 +33,7 @@ type ConOp struct {
 	N    int    `json:"n,omitempty"`
 	M    int    `json:"m,omitempty"`
 	Col  string `json:"col,omitempty"`
+	PC   *int   `json:"pc,omitempty"` // child.pc (references parent.code once the second key exists)
 }
 
 type ConBody struct {
@@ -65,13 +66,21 @@ func (CON) Generate(seed uint64, tier string) *core.Scenario {
 			s = -1
 		}
 		switch x := r.Intn(100); {
+		case x < 10:
+			b.Ops = append(b.Ops, ConOp{S: s, Kind: "pins", ID: r.Intn(4), N: r.Intn(4)})
 		case x < 12:
-			b.Ops = append(b.Ops, ConOp{S: s, Kind: "pins", ID: r.Intn(4)})
+			if r.Chance(1, 3) {
+				// a second foreign key (child.pc -> parent.code, a non-key column) declared on main
+				// after b1 branched off: the merge base knows neither the key nor its index
+				b.Ops = append(b.Ops, ConOp{S: s, Kind: "addfk"})
+			} else {
+				b.Ops = append(b.Ops, ConOp{S: s, Kind: "pupd", ID: r.Intn(4), N: r.Intn(4)})
+			}
 		case x < 22:
 			b.Ops = append(b.Ops, ConOp{S: s, Kind: "pdel", ID: r.Intn(4)})
 		case x < 42:
 			nn := r.Range(0, 3)
-			b.Ops = append(b.Ops, ConOp{S: s, Kind: "cins", ID: r.Intn(6), P: mayNull(4), U: mayNull(4), N: nn, M: r.Range(-1, nn)})
+			b.Ops = append(b.Ops, ConOp{S: s, Kind: "cins", ID: r.Intn(6), P: mayNull(4), U: mayNull(4), N: nn, M: r.Range(-1, nn), PC: mayNull(4)})
 		case x < 50:
 			b.Ops = append(b.Ops, ConOp{S: s, Kind: "cupd", ID: r.Intn(6), Col: "pid", P: mayNull(4)})
 		case x < 58:
@@ -79,7 +88,11 @@ func (CON) Generate(seed uint64, tier string) *core.Scenario {
 		case x < 64:
 			b.Ops = append(b.Ops, ConOp{S: s, Kind: "cupd", ID: r.Intn(6), Col: "n", N: r.Range(-1, 3)})
 		case x < 70:
-			b.Ops = append(b.Ops, ConOp{S: s, Kind: "cupd", ID: r.Intn(6), Col: "m", M: r.Range(-1, 3)})
+			if r.Chance(1, 2) {
+				b.Ops = append(b.Ops, ConOp{S: s, Kind: "cupd", ID: r.Intn(6), Col: "m", M: r.Range(-1, 3)})
+			} else {
+				b.Ops = append(b.Ops, ConOp{S: s, Kind: "cupd", ID: r.Intn(6), Col: "pc", PC: mayNull(4)})
+			}
 		case x < 75:
 			b.Ops = append(b.Ops, ConOp{S: s, Kind: "cdel", ID: r.Intn(6)})
 		case x < 78 && s >= 0:
@@ -109,12 +122,14 @@ type conViol struct {
 }
 
 // evalConstraints re-checks the declared constraints over full scans of both tables.
-// parent rows: id, v; child rows: id, pid, u, n, m.
-func evalConstraints(parent, child [][]string) []conViol {
+// parent rows: id, v, code; child rows: id, pid, u, n, m, pc. fk2: child.pc -> parent.code is declared.
+func evalConstraints(parent, child [][]string, fk2 bool) []conViol {
 	var out []conViol
 	pids := map[string]int{}
+	codes := map[string]bool{}
 	for _, r := range parent {
 		pids[r[0]]++
+		codes[r[2]] = true
 		if r[0] == "NULL" {
 			out = append(out, conViol{"not null", "parent:" + r[0]})
 		}
@@ -132,6 +147,8 @@ func evalConstraints(parent, child [][]string) []conViol {
 			us[r[2]] = append(us[r[2]], r[0])
 		}
 		if r[1] != "NULL" && pids[r[1]] == 0 {
+			out = append(out, conViol{"foreign key", r[0]})
+		} else if fk2 && r[5] != "NULL" && !codes[r[5]] {
 			out = append(out, conViol{"foreign key", r[0]})
 		}
 		if r[3] == "NULL" || r[4] == "NULL" || r[0] == "NULL" {
@@ -188,9 +205,9 @@ func (CON) Execute(t *testing.T, sc *core.Scenario) *core.Result {
 		return res
 	}
 	for _, q := range []string{
-		"CREATE TABLE parent (id INT PRIMARY KEY, v INT)",
-		"CREATE TABLE child (id INT PRIMARY KEY, pid INT, u INT, n INT NOT NULL, m INT NOT NULL, CONSTRAINT fkp FOREIGN KEY (pid) REFERENCES parent (id), UNIQUE KEY uu (u), CONSTRAINT ck CHECK (n >= m))",
-		"INSERT INTO parent VALUES (0, 0), (1, 0)",
+		"CREATE TABLE parent (id INT PRIMARY KEY, v INT, code INT)",
+		"CREATE TABLE child (id INT PRIMARY KEY, pid INT, u INT, n INT NOT NULL, m INT NOT NULL, pc INT, CONSTRAINT fkp FOREIGN KEY (pid) REFERENCES parent (id), UNIQUE KEY uu (u), CONSTRAINT ck CHECK (n >= m))",
+		"INSERT INTO parent VALUES (0, 0, 0), (1, 0, 1)",
 		"CALL dolt_commit('-Am', 'schema')",
 		"CALL dolt_branch('b1')",
 	} {
@@ -228,6 +245,7 @@ func (CON) Execute(t *testing.T, sc *core.Scenario) *core.Result {
 	}
 	sig := core.NewSig()
 	refusals, mergesWithViolations := 0, 0
+	fk2Main := false
 	lit := func(p *int) string {
 		if p == nil {
 			return "NULL"
@@ -236,14 +254,14 @@ func (CON) Execute(t *testing.T, sc *core.Scenario) *core.Result {
 	}
 	// check evaluates the constraints on what reader sees of suffix (e.g. " AS OF 'h'").
 	check := func(reader *Sess, suffix, where string, step int) {
-		p, err1 := reader.Exec(ctx, "SELECT id, v FROM parent"+suffix)
-		c, err2 := reader.Exec(ctx, "SELECT id, pid, u, n, m FROM child"+suffix)
+		p, err1 := reader.Exec(ctx, "SELECT id, v, code FROM parent"+suffix)
+		c, err2 := reader.Exec(ctx, "SELECT id, pid, u, n, m, pc FROM child"+suffix)
 		if err1 != nil || err2 != nil {
 			res.Probe("evaluator_read_error")
 			return
 		}
 		res.Evaluations++
-		for _, v := range evalConstraints(p, c) {
+		for _, v := range evalConstraints(p, c, fk2Main && reader != bs && suffix == "") {
 			res.Violate("committed-data-violates-constraint", "constraint="+v.Kind, step, "%s: committed tables violate %s (child/row %s)\nparent:\n%s\nchild (id|pid|u|n|m):\n%s", where, v.Kind, v.ID, indent(rowsKey(p)), indent(rowsKey(c)))
 			break
 		}
@@ -254,6 +272,24 @@ func (CON) Execute(t *testing.T, sc *core.Scenario) *core.Result {
 	}
 	explicit := make([]bool, b.NSess)
 	for step, op := range b.Ops {
+		if op.Kind == "addfk" {
+			// schema changes commit implicitly and are kept out of open transactions: main only,
+			// through the merging session, once
+			if fk2Main {
+				continue
+			}
+			if _, err := mg.Exec(ctx, "ALTER TABLE parent ADD INDEX ic (code)"); err == nil {
+				if _, err := mg.Exec(ctx, "ALTER TABLE child ADD CONSTRAINT fk2 FOREIGN KEY (pc) REFERENCES parent (code)"); err == nil {
+					fk2Main = true
+					res.Fault("foreign-key-declared-after-branching")
+				} else {
+					res.Probe("addfk_refused")
+					mg.Exec(ctx, "ALTER TABLE parent DROP INDEX ic")
+				}
+			}
+			checkMain("after ALTER TABLE ... ADD FOREIGN KEY", step)
+			continue
+		}
 		if op.S >= b.NSess {
 			continue
 		}
@@ -336,11 +372,13 @@ func (CON) Execute(t *testing.T, sc *core.Scenario) *core.Result {
 			}
 			continue
 		case "pins":
-			q = fmt.Sprintf("INSERT INTO parent VALUES (%d, %d)", op.ID, step)
+			q = fmt.Sprintf("INSERT INTO parent VALUES (%d, %d, %d)", op.ID, step, op.N)
+		case "pupd":
+			q = fmt.Sprintf("UPDATE parent SET code = %d WHERE id = %d", op.N, op.ID)
 		case "pdel":
 			q = fmt.Sprintf("DELETE FROM parent WHERE id = %d", op.ID)
 		case "cins":
-			q = fmt.Sprintf("INSERT INTO child VALUES (%d, %s, %s, %d, %d)", op.ID, lit(op.P), lit(op.U), op.N, op.M)
+			q = fmt.Sprintf("INSERT INTO child VALUES (%d, %s, %s, %d, %d, %s)", op.ID, lit(op.P), lit(op.U), op.N, op.M, lit(op.PC))
 		case "cdel":
 			q = fmt.Sprintf("DELETE FROM child WHERE id = %d", op.ID)
 		case "cupd":
@@ -351,6 +389,8 @@ func (CON) Execute(t *testing.T, sc *core.Scenario) *core.Result {
 				q = fmt.Sprintf("UPDATE child SET u = %s WHERE id = %d", lit(op.U), op.ID)
 			case "n":
 				q = fmt.Sprintf("UPDATE child SET n = %d WHERE id = %d", op.N, op.ID)
+			case "pc":
+				q = fmt.Sprintf("UPDATE child SET pc = %s WHERE id = %d", lit(op.PC), op.ID)
 			default:
 				q = fmt.Sprintf("UPDATE child SET m = %d WHERE id = %d", op.M, op.ID)
 			}
@@ -386,8 +426,8 @@ func (CON) Execute(t *testing.T, sc *core.Scenario) *core.Result {
 			_, merr := fm.Exec(ctx, "CALL dolt_merge('b1')")
 			_, cerr := fm.Exec(ctx, "COMMIT")
 			if merr == nil && cerr == nil {
-				p, err1 := mg.Exec(ctx, "SELECT id, v FROM parent")
-				c, err2 := mg.Exec(ctx, "SELECT id, pid, u, n, m FROM child")
+				p, err1 := mg.Exec(ctx, "SELECT id, v, code FROM parent")
+				c, err2 := mg.Exec(ctx, "SELECT id, pid, u, n, m, pc FROM child")
 				rec, err3 := mg.Exec(ctx, "SELECT violation_type, id FROM dolt_constraint_violations_child")
 				if err3 != nil {
 					rec = nil // the table does not exist when nothing was recorded
@@ -402,7 +442,7 @@ func (CON) Execute(t *testing.T, sc *core.Scenario) *core.Result {
 						}
 						recorded[r[0]+"/"+r[1]] = true
 					}
-					found := evalConstraints(p, c)
+					found := evalConstraints(p, c, fk2Main)
 					if len(found) > 0 {
 						mergesWithViolations++
 						res.Fault("forced-merge-with-violations")
